@@ -30,6 +30,8 @@ Cp(k) == 48 + k
 PName(k) == <<112, Cp(k)>>                                      \* p1, p2, p3
 MTJson == <<97, 112, 112, 108, 105, 99, 97, 116, 105, 111, 110, 47, 106, 115, 111, 110>>      \* application/json
 MTTextJson == <<116, 101, 120, 116, 47, 106, 115, 111, 110>>                                  \* text/json
+MTForm == <<97, 112, 112, 108, 105, 99, 97, 116, 105, 111, 110, 47, 120, 45, 119, 119, 119, 45, 102, 111, 114, 109, 45, 117, 114, 108, 101, 110, 99, 111, 100, 101, 100>>
+MTUnknown == <<97, 112, 112, 108, 105, 99, 97, 116, 105, 111, 110, 47, 120, 45, 118, 101, 114, 105, 102>>       \* application/x-verif
 AnyMT == <<42>>
 Tid == <<105, 100>>
 Tname == <<110, 97, 109, 101>>
@@ -65,8 +67,24 @@ Unsendable(op) == \E e \in AllExamples(op) : BadExample(e)
 (* Beside an unsendable example: the other examples of the SAME parameter can all be sent and must be.  Examples of other  *)
 (* parts may have been combined with the unsendable one (which combination carries which example is not fixed by the      *)
 (* property), so they are not demanded - they are counted as undecided by the harness.                                     *)
-Demanded(op) == IF ~Unsendable(op) THEN AllExamples(op)
-                ELSE {e \in AllExamples(op) : ~BadExample(e) /\ \E b \in AllExamples(op) : BadExample(b) /\ b.kind = e.kind /\ b.name = e.name}
+(* Media types for which a JSON-like example value has a defined serialisation (JSON, RFC 1866 forms); an example (or a   *)
+(* required body without example) for any other media type cannot be put on the wire.                                    *)
+IsForm(mt) == LowerTxt(mt) = MTForm
+KnownMT(mt) == LowerTxt(mt) \in {MTJson, MTTextJson, MTForm}
+Unserializable(op) == \E i \in DOMAIN op.bodies : ~KnownMT(op.bodies[i].mt)
+(* a required input without example whose schema no value satisfies (minimum > maximum), or a required body that has no  *)
+(* serialisable media type at all: no request with all required inputs valid exists                                       *)
+Unsatisfiable(s) == s.sk = "schema" /\ Has(s, "minimum") /\ Has(s, "maximum") /\ s.minimum > s.maximum
+Unfillable(op) == \/ \E i \in DOMAIN op.params : op.params[i].required /\ op.params[i].ex = <<>> /\ Unsatisfiable(op.params[i].schema)
+                  \/ /\ \E i \in DOMAIN op.bodies : op.bodies[i].required
+                     /\ \A i \in DOMAIN op.bodies : ~KnownMT(op.bodies[i].mt) /\ op.bodies[i].ex = <<>>
+ErrorJustified(op) == Unsendable(op) \/ Unserializable(op) \/ Unfillable(op)
+Demanded(op) == IF Unfillable(op) THEN {}
+                ELSE IF Unsendable(op)
+                THEN {e \in AllExamples(op) : ~BadExample(e) /\ \E b \in AllExamples(op) : BadExample(b) /\ b.kind = e.kind /\ b.name = e.name}
+                ELSE IF Unserializable(op)      \* bodies of the serialisable media types are separate combinations: still sent
+                THEN {e \in AllExamples(op) : e.kind = "body" /\ e.name # AnyMT /\ KnownMT(e.name)}
+                ELSE AllExamples(op)
 
 (* ------------------------------------------------------------------ combination (design level) *)
 (* Pools: the examples of each part that has some.  RoundRobin: combination number c takes, from every pool, the       *)
@@ -83,8 +101,13 @@ BoolText(b) == IF b THEN <<116, 114, 117, 101>> ELSE <<102, 97, 108, 115, 101>>
 SentText(v) == CASE v.t = "str" -> v.v [] v.t = "int" -> DigitsOf(v.v) [] v.t = "bool" -> BoolText(v.v) [] OTHER -> <<0>>
 AsText(e, v) == v.t = "str" /\ e.t \in {"str", "int", "bool"} /\ v.v = SentText(e)
 (* a Case may hold a non-body value already in the text form it is sent as (headers and cookies always are) *)
+(* kind "form": a leaf of a form-urlencoded body - text on the wire like a query value *)
+Leaf1(e, v, mode) == IF mode = "wire" THEN AsText(e, v) ELSE Eq3(e, v) = "T" \/ AsText(e, v)
 Same(e, v, kind, mode) == IF kind = "body" THEN Eq3(e, v) = "T"
-                          ELSE IF mode = "wire" THEN AsText(e, v) ELSE Eq3(e, v) = "T" \/ AsText(e, v)
+                          ELSE IF kind = "form" /\ e.t = "obj"          \* a whole form: the same fields, each with the same text
+                          THEN /\ v.t = "obj" /\ ~DupKeys(e) /\ ~DupKeys(v) /\ Len(e.k) = Len(v.k)
+                               /\ \A i \in DOMAIN e.k : ObjHas(v, e.k[i]) /\ Leaf1(e.v[i], ObjGet(v, e.k[i]), mode)
+                          ELSE Leaf1(e, v, mode)
 RECURSIVE At(_, _, _, _, _)
 At(v, path, e, kind, mode) ==
   IF path = <<>> THEN Same(e, v, kind, mode)
@@ -92,9 +115,16 @@ At(v, path, e, kind, mode) ==
        IF s.k = "prop" THEN v.t = "obj" /\ ObjHas(v, s.name) /\ At(ObjGet(v, s.name), Tail(path), e, kind, mode)
        ELSE v.t = "arr" /\ \E i \in DOMAIN v.v : At(v.v[i], Tail(path), e, kind, mode)
 PartMatch(p, kind, name) == p.kind = kind /\ (name = AnyMT \/ LowerTxt(p.name) = LowerTxt(name))
-Occurs(e, r, mode) == \E i \in DOMAIN r.parts : PartMatch(r.parts[i], e.kind, e.name) /\ At(r.parts[i].v, e.path, e.v, e.kind, mode)
+(* an OpenAPI 2.0 `in: formData` parameter is the field of that name in the form body *)
+Occurs(e, r, mode) ==
+  IF e.kind = "formData"
+  THEN \E i \in DOMAIN r.parts : r.parts[i].kind = "body" /\ At(r.parts[i].v, <<[k |-> "prop", name |-> e.name]>> \o e.path, e.v, "form", mode)
+  ELSE \E i \in DOMAIN r.parts : /\ PartMatch(r.parts[i], e.kind, e.name)
+                                 /\ At(r.parts[i].v, e.path, e.v, IF e.kind = "body" /\ IsForm(r.parts[i].name) THEN "form" ELSE e.kind, mode)
 Dropped(op, sent, mode) == {e \in AllExamples(op) : ~\E i \in DOMAIN sent : Occurs(e, sent[i], mode)}
-Has2(r, kind, name) == \E i \in DOMAIN r.parts : PartMatch(r.parts[i], kind, name)
+Has2(r, kind, name) == IF kind = "formData"
+                       THEN \E i \in DOMAIN r.parts : r.parts[i].kind = "body" /\ r.parts[i].v.t = "obj" /\ ObjHas(r.parts[i].v, name)
+                       ELSE \E i \in DOMAIN r.parts : PartMatch(r.parts[i], kind, name)
 MissingRequired(op, r) ==
   {op.params[i].name : i \in {j \in DOMAIN op.params : op.params[j].required /\ ~Has2(r, op.params[j].loc, op.params[j].name)}}
   \cup (IF (\E i \in DOMAIN op.bodies : op.bodies[i].required) /\ ~\E i \in DOMAIN r.parts : r.parts[i].kind = "body"
@@ -106,6 +136,9 @@ FillVerdict(op, p, mode) ==       \* validity of one sent part against the docum
        IN IF idx = {} THEN "U"
           ELSE LET b == op.bodies[MinOf(idx)] IN
                IF \E i \in DOMAIN b.ex : Where(b.ex[i].at) = <<>> THEN "T"   \* the body IS one of its examples: judged by Dropped
+               ELSE IF IsForm(b.mt)                                       \* form fields are texts: only presence of required fields is judged
+               THEN (IF p.v.t = "obj" /\ Has(b.schema, "required") /\ \E j \in DOMAIN b.schema.required : ~ObjHas(p.v, b.schema.required[j])
+                     THEN "F" ELSE "T")
                ELSE Valid(NoDefs1, b.schema, p.v, "request")             \* generated, or assembled around property examples
   ELSE LET idx == {i \in DOMAIN op.params : op.params[i].loc = p.kind /\ LowerTxt(op.params[i].name) = LowerTxt(p.name)}
        IN IF idx = {} THEN "T"
@@ -120,7 +153,7 @@ Complaints(op, obs) ==
   LET all == AllExamples(op) IN
   IF obs.status \notin {"ok", "error", "skipped"} THEN {"crash"}
   ELSE IF all = {} THEN (IF obs.sent # <<>> THEN {"sent-without-examples"} ELSE {}) \cup (IF obs.status # "skipped" THEN {"not-reported-skipped"} ELSE {})
-  ELSE IF obs.status = "error" /\ ~Unsendable(op) THEN {"error-for-sendable-examples"}
+  ELSE IF obs.status = "error" /\ ~ErrorJustified(op) THEN {"error-for-sendable-examples"}
   ELSE IF obs.status = "error" THEN        \* the unsendable example is reported; every sendable one beside it is still sent
        (IF \E e \in Demanded(op) : ~\E i \in DOMAIN obs.sent : Occurs(e, obs.sent[i], obs.mode) THEN {"dropped"} ELSE {})
        \cup (IF \E i \in DOMAIN obs.sent : MissingRequired(op, obs.sent[i]) # {} THEN {"missing-required"} ELSE {})
@@ -141,7 +174,13 @@ Branches(kw, n, s) == [sk |-> "schema"] @@ (kw :> [j \in 1..n |-> s])
 (* (base schema, values) -> [schema, ex] for a placement at the top of a parameter / media type *)
 Place(place, n, s, vals) ==
   CASE place = "none" -> [schema |-> s, ex |-> <<>>]
-    [] place \in {"example", "x-example", "examples", "x-examples", "examples-ref"} -> [schema |-> s, ex |-> Outer(place, vals)]
+    [] place \in {"example", "x-example", "examples", "x-examples", "examples-ref", "examples-external"} -> [schema |-> s, ex |-> Outer(place, vals)]
+    [] place = "example-noschema" -> [schema |-> s, ex |-> Outer("example", vals)]       \* Media Type Object without `schema`
+    [] place = "examples-noschema" -> [schema |-> s, ex |-> Outer("examples", vals)]
+    [] place = "allOf-list" ->            \* a later allOf branch carries a JSON-Schema `examples` list
+         [schema |-> [sk |-> "schema", allOf |-> <<s, Empty>>],
+          ex |-> <<InSchema(<<Branch("allOf", 1)>>, "example", <<vals[1]>>),
+                   InSchema(<<Branch("allOf", 2)>>, "examples-list", SubSeq(vals, 2, n))>>]
     [] place = "schema-example" -> [schema |-> s, ex |-> <<InSchema(<<>>, "example", vals)>>]
     [] place = "schema-examples" -> [schema |-> s, ex |-> <<InSchema(<<>>, "examples-list", vals)>>]
     [] place \in {"anyOf", "oneOf"} -> [schema |-> Branches(place, n, s),
@@ -150,8 +189,10 @@ Place(place, n, s, vals) ==
                            ex |-> [j \in 1..n |-> InSchema(<<Branch("allOf", j)>>, "example", <<vals[j]>>)]]
 PlaceCounts(place) == CASE place = "none" -> {0} [] place \in {"example", "x-example", "schema-example"} -> {1}
                         [] place \in {"examples", "x-examples", "schema-examples"} -> {1, 2, 3}
+                        [] place \in {"examples-external", "examples-noschema"} -> {1, 2} [] place = "example-noschema" -> {1}
+                        [] place = "allOf-list" -> {2, 3}
                         [] place = "examples-ref" -> {1, 2} [] place = "anyOf" -> {2} [] place = "oneOf" -> {2, 3} [] place = "allOf" -> {1, 2}
-ParamPlaces3 == {"none", "example", "examples", "examples-ref", "schema-example", "schema-examples", "anyOf", "oneOf", "allOf"}
+ParamPlaces3 == {"none", "example", "examples", "examples-ref", "schema-example", "schema-examples", "anyOf", "oneOf", "allOf", "allOf-list"}
 ParamPlaces2 == {"none", "example", "x-example", "x-examples"}
 PO(places) == {x \in places \X (0..3) : x[2] \in PlaceCounts(x[1])}
 
@@ -182,7 +223,7 @@ BodyPlaces2 == {"none", "x-example", "x-examples", "example", "schema-example", 
 BodyCounts(place) == IF place \in {"property", "property-nested", "items-property", "allOf-properties", "property-allOf"} THEN {1, 2, 3}
                      ELSE IF place \in {"property-branch", "branch-property"} THEN {2} ELSE PlaceCounts(place)
 BO(places) == {x \in places \X (0..3) : x[2] \in BodyCounts(x[1])}
-BodyPlaces3 == BodyPlaces3a \cup {"allOf-properties", "property-allOf"}
+BodyPlaces3 == BodyPlaces3a \cup {"allOf-properties", "property-allOf", "examples-external", "example-noschema", "examples-noschema"}
 Req(names) == IF names = <<>> THEN [x \in {} |-> 0] ELSE [required |-> names]
 ObjBranch(names, schemas, required) == [sk |-> "schema", type |-> <<"object">>, props |-> [k |-> names, v |-> schemas]] @@ Req(required)
 (* allOf of object branches: `a` (example) and `c` (required, NO example) in the first branch, `b` (example) in the second, *)
@@ -229,7 +270,20 @@ Body(b, mt, req, bo) == BodyS(b, mt, req, bo, 0, IntV(0))
 
 Second(tag, req) == IF tag = "absent" THEN <<>> ELSE <<Body(2, MTTextJson, req, IF tag = "none" THEN <<"none", 0>> ELSE <<"examples", 2>>)>>
 (* cfg: what the run is configured with besides the document - "none", or "header": an unrelated request header (-H) *)
-OpC(d, ps, bs, slice, cfg) == [dialect |-> d, params |-> ps, bodies |-> bs, slice |-> slice, cfg |-> cfg]
+(* flags: how the same inputs are WRITTEN in the document - parameter objects / the request body behind `$ref`, parameters *)
+(* declared on the path item, and a 2xx response example whose field is named like the first parameter (a source of extra,  *)
+(* inferred values that must not displace the explicit examples)                                                           *)
+NoFlags == [refParam |-> FALSE, refBody |-> FALSE, pathLevel |-> FALSE, resp |-> FALSE]
+OpF(d, ps, bs, slice, cfg, flags) == [dialect |-> d, params |-> ps, bodies |-> bs, slice |-> slice, cfg |-> cfg, flags |-> flags]
+OpC(d, ps, bs, slice, cfg) == OpF(d, ps, bs, slice, cfg, NoFlags)
+(* an object-valued query parameter (style deepObject) with examples on its properties *)
+ObjectParam(k, req, n) == [name |-> PName(k), loc |-> "query", required |-> req, style |-> "deepObject", place |-> "object-property",
+                           schema |-> PropSchema(Leaf("integer")),
+                           ex |-> <<InSchema(<<Prop(Ta)>>, IF n = 1 THEN "example" ELSE "examples-list", [j \in 1..n |-> IntV(10 * k + 70 + j)])>>]
+(* a parameter described with `content` (one media type) instead of `schema`; its examples stay on the Parameter Object *)
+ContentParam(k, req, po) == Param(k, "query", req, "integer", po) @@ [viaContent |-> TRUE]
+UnsatParam(k, loc) == [name |-> PName(k), loc |-> loc, required |-> TRUE, place |-> "none", ex |-> <<>>,
+                       schema |-> [sk |-> "schema", type |-> <<"integer">>, minimum |-> 5, maximum |-> 1]]
 Op(d, ps, bs, slice) == OpC(d, ps, bs, slice, "none")
 Few3 == {<<"none", 0>>, <<"examples", 3>>, <<"schema-example", 1>>, <<"oneOf", 2>>}
 VARIABLE op
@@ -304,7 +358,46 @@ InitL == \/ \E i \in DOMAIN Falsy, bo \in BO(WholePlaces3), pos \in 1..3, withQu
          \/ \E i \in DOMAIN Falsy, bo \in BO({"x-example", "x-examples", "example", "schema-example"}), pos \in 1..3 :
               /\ pos <= bo[2]
               /\ op = Op("2.0", <<>>, <<BodyS(1, MTJson, TRUE, bo, pos, Falsy[i])>>, "falsy-bodies")
-Init == InitK \/ InitL \/ InitJ \/ InitI \/ InitA \/ InitB \/ InitC \/ InitD \/ InitE \/ InitF \/ InitG \/ InitH
+FlagSets == {[NoFlags EXCEPT !.refParam = TRUE], [NoFlags EXCEPT !.pathLevel = TRUE], [NoFlags EXCEPT !.refBody = TRUE],
+             [NoFlags EXCEPT !.resp = TRUE], [refParam |-> TRUE, refBody |-> TRUE, pathLevel |-> TRUE, resp |-> TRUE]}
+InitM == \/ \E fl \in FlagSets, a \in {<<"examples", 2>>, <<"examples-ref", 2>>, <<"schema-example", 1>>, <<"none", 0>>},
+               bo \in {<<"examples", 2>>, <<"examples-ref", 1>>, <<"property", 2>>, <<"none", 0>>}, d \in {"3.0", "3.1"} :
+              \* the same inputs written with $ref'd parameter / requestBody objects, path-level parameters, response examples
+              op = OpF(d, <<Param(1, "query", FALSE, "integer", a), Param(2, "header", TRUE, "string", <<"examples", 2>>)>>,
+                       <<Body(1, MTJson, TRUE, bo)>>, "document-structure", "none", fl)
+         \/ \E fl \in {[NoFlags EXCEPT !.refParam = TRUE], [NoFlags EXCEPT !.pathLevel = TRUE], [NoFlags EXCEPT !.refBody = TRUE]},
+               a \in {<<"x-examples", 2>>, <<"x-example", 1>>}, bo \in {<<"x-examples", 2>>, <<"schema-example", 1>>} :
+              op = OpF("2.0", <<Param(1, "query", FALSE, "integer", a)>>, <<Body(1, MTJson, TRUE, bo)>>, "document-structure", "none", fl)
+InitN == \/ \E bo \in {<<"example", 1>>, <<"examples", 2>>, <<"schema-example", 1>>, <<"property", 2>>, <<"none", 0>>},
+               ps \in {<<>>, <<Param(1, "query", TRUE, "integer", <<"examples", 2>>)>>}, d \in {"3.0", "3.1"} :
+              \* media types: a form-urlencoded body (examples, or generated next to parameter examples)
+              op = Op(d, ps, <<Body(1, MTForm, TRUE, bo)>>, "media-types")
+         \/ \E bo \in {<<"example", 1>>, <<"examples", 2>>, <<"none", 0>>}, second \in {"absent", "examples", "none"},
+               ps \in {<<>>, <<Param(1, "query", TRUE, "integer", <<"examples", 2>>)>>} :
+              \* a media type without a defined serialisation: alone, or next to a JSON one (with / without examples)
+              op = Op("3.0", ps, <<Body(1, MTUnknown, TRUE, bo)>>
+                                 \o (IF second = "absent" THEN <<>> ELSE <<Body(2, MTJson, TRUE, IF second = "none" THEN <<"none", 0>> ELSE <<"examples", 2>>)>>),
+                      "media-types")
+InitO == \/ \E loc \in {"query", "header"}, a \in {<<"examples", 2>>, <<"schema-example", 1>>}, withBody \in BOOLEAN :
+              \* a required input that no value satisfies next to examples: must end as an error, never silently
+              op = Op("3.0", <<Param(1, "query", FALSE, "integer", a), UnsatParam(2, loc)>>,
+                      IF withBody THEN <<Body(1, MTJson, TRUE, <<"examples", 2>>)>> ELSE <<>>, "unfillable")
+         \/ \E n \in 1..3, req \in BOOLEAN, other \in {"none", "query", "body"} :
+              \* an object-valued parameter with examples on its properties
+              op = Op("3.0", <<ObjectParam(1, req, n)>> \o (IF other = "query" THEN <<Param(2, "query", TRUE, "string", <<"examples", 2>>)>> ELSE <<>>),
+                      IF other = "body" THEN <<Body(1, MTJson, TRUE, <<"property", 2>>)>> ELSE <<>>, "object-parameter")
+InitQ == \/ \E a \in PO(ParamPlaces2), b \in {<<"none", 0>>, <<"x-examples", 2>>, <<"x-example", 1>>}, q \in BOOLEAN :
+              \* OpenAPI 2.0 form fields (`in: formData`) with examples
+              op = Op("2.0", <<Param(1, "formData", FALSE, "integer", a), Param(2, "formData", TRUE, "string", b)>>
+                             \o (IF q THEN <<Param(3, "query", FALSE, "integer", <<"x-examples", 2>>)>> ELSE <<>>), <<>>, "form-fields")
+         \/ \E a \in {<<"example", 1>>, <<"examples", 2>>, <<"examples", 3>>, <<"examples-ref", 2>>, <<"none", 0>>}, req \in BOOLEAN,
+               b \in {<<"none", 0>>, <<"examples", 2>>} :
+              op = Op("3.0", <<ContentParam(1, req, a), Param(2, "query", TRUE, "string", b)>>, <<>>, "content-parameter")
+InitP == \/ \E a \in PO(ParamPlaces3), b \in Few3 :                       \* OpenAPI 3.1
+              op = Op("3.1", <<Param(1, "query", FALSE, "integer", a), Param(2, "header", TRUE, "string", b)>>, <<>>, "openapi31")
+         \/ \E bo \in BO(BodyPlaces3), ps \in {<<>>, <<Param(1, "query", TRUE, "string", <<"none", 0>>)>>} :
+              op = Op("3.1", ps, <<Body(1, MTJson, TRUE, bo)>>, "openapi31")
+Init == InitQ \/ InitM \/ InitN \/ InitO \/ InitP \/ InitK \/ InitL \/ InitJ \/ InitI \/ InitA \/ InitB \/ InitC \/ InitD \/ InitE \/ InitF \/ InitG \/ InitH
 Next == UNCHANGED op
 Spec == Init /\ [][Next]_op
 
@@ -317,5 +410,6 @@ RoundRobinMinimal == LET s == PoolSizes(op) IN \A i \in DOMAIN s : Len(RoundRobi
 (* a faithful execution of the abstract phase is accepted by the judge: send, per combination, each part's chosen example *)
 Sanity == TypeOK /\ DistinctExamples /\ RoundRobinCovers /\ RoundRobinMinimal
 
-Export == PrintT(<<"CASE", ToJson([op |-> op, n |-> Cardinality(AllExamples(op)), unsendable |-> Unsendable(op)])>>)
+Export == PrintT(<<"CASE", ToJson([op |-> op, n |-> Cardinality(AllExamples(op)), unsendable |-> Unsendable(op),
+                                        errorJustified |-> ErrorJustified(op), demanded |-> Cardinality(Demanded(op))])>>)
 =============================================================================
